@@ -245,6 +245,9 @@ pub fn run(ctx: &Ctx) -> Outcome {
         }
     }
     rep.sample(jobj! {"lookup" => "de", "corpus_head" => J::Arr(discriminating_corpus("de").into_iter().take(6).map(J::Str).collect())});
+    if !ctx.quick() {
+        super::legs::fuzz_leg(ctx, &mut rep, 45);
+    }
     let rule = "differential: for each of the 7 languages the concrete interpreter type vs the Language facade value (and vs the value returned by get_interpreter_for) on hostile / linking / annotator-state texts (validate, rewrite and find at 5 thresholds, annotation flags), hinted token streams (batch, lazy iterator incl. pull counts, stream rewrite, basic_annotate on caller tokens) and the eight trait methods called directly on twin builders (status, rendering, marker, flags, formatted text, value); lookup: the 7 ISO 639-1 codes behave as their language on a corpus that separates all 7 languages; None asserted only for strings that cannot be a language tag (empty, digits, symbols, > 8 letters); non-trivial = every case compares at least two executions";
     finish(ctx, rep, rule, &["\"EN\", \"en-US\", \"eng\" and similar tag-like strings are not judged"], vec![])
 }
